@@ -50,7 +50,7 @@ VARIANTS = {
     "grid_non_numeric": ["str_start", "none_stop", "str_n_points"],
     "grid_nan": ["nan_start", "inf_stop", "neg_inf_start"],
     "grid_log_nonpositive": ["zero", "negative"],
-    "grid_bad_categories": ["gap", "duplicate", "unordered", "float_half", "not_dataclass", "empty"],
+    "grid_bad_categories": ["gap", "duplicate", "unordered", "float_half", "not_dataclass", "empty", "near_integer", "near_zero"],
 }
 FEATURES_B = [
     "base", "choice_only_filter", "state_only_filter", "aux_state", "no_states", "no_choices", "stoch_zero_deps",
@@ -446,7 +446,8 @@ def inject(kw, desc, name, rng, variant=None):
 
                 bad_grid(lambda: DiscreteGrid(Plain))
             else:
-                vals = {"gap": (0, 2), "duplicate": (0, 0, 1), "unordered": (1, 0), "float_half": (0, 0.5, 2), "empty": ()}[variant]
+                vals = {"gap": (0, 2), "duplicate": (0, 0, 1), "unordered": (1, 0), "float_half": (0, 0.5, 2), "empty": (),
+                        "near_integer": (0, 1.000001), "near_zero": (1e-9, 1)}[variant]
                 bad_grid(lambda: DiscreteGrid(make_dataclass("Cat", [(f"f{i}", float if isinstance(v, float) else int, v) for i, v in enumerate(vals)])))
         else:
             done = False
